@@ -114,7 +114,12 @@ inline void apply(Run &R, const Op &o) {
             m.sp[k].push_back(id);
         } break;
         case 2: case 3: {
-            if (k == j) break;
+            if (k == j) {
+                // merging a suspend point with ITSELF (aliases in generic code): it keeps exactly what it has
+                cocls::suspend_point<void> &alias = *R.pool[j];
+                if (code == 2) *R.pool[k] << std::move(alias); else *R.pool[k] = std::move(alias);
+                break;
+            }
             if (code == 2) *R.pool[k] << std::move(*R.pool[j]);
             else *R.pool[k] = std::move(*R.pool[j]);
             m.sp[k].insert(m.sp[k].end(), m.sp[j].begin(), m.sp[j].end());
